@@ -57,7 +57,7 @@ Proof.
   - cbn [skipn]. apply IH. intros j it Hj. apply (H (S j) it). lia.
 Qed.
 
-Lemma fold_append_normal : forall m mk items n s w,
+Lemma fold_append_normal : forall (m : builder) mk items n s w,
   (forall j it, s <= j -> nth_error (w_children w) j <> Some (Some it)) ->
   fold_left (step_add m mk items) (append_adds s n) w
   = fold_left (step_add m mk items) (normal_adds s n) w.
@@ -144,8 +144,8 @@ Proof.
     rewrite unpack_loop_spec; [reflexivity|constructor|]. cbn [total fold_right length]. lia.
 Qed.
 
-Theorem apply_diff_props : forall pre post mk to m its next gen,
-  1 <= m -> wf_items pre post mk next its -> NoDup to ->
+Theorem apply_diff_props : forall pre post mk to (m : builder) its next gen,
+  bld_ok m -> wf_items pre post mk next its -> NoDup to ->
   apply_props pre post mk to its next gen
     (apply_diff m mk (diff (map it_key its) to) to (start pre post mk its next gen)).
 Proof.
@@ -209,7 +209,7 @@ Qed.
     of [rendered_items], and the parent's children are
     [pre ++ (nodes of the items, in order) ++ marker :: post] without repetition *)
 Definition st_wf (pre post : list node) (st : kstate) : Prop :=
-  1 <= ks_m st /\ map it_key (ks_items st) = ks_keys st /\
+  bld_ok (ks_bld st) /\ map it_key (ks_items st) = ks_keys st /\
   ks_dom st = pre ++ flat_map it_nodes (ks_items st) ++ ks_marker st :: post /\
   wf_items pre post (ks_marker st) (ks_next st) (ks_items st).
 
@@ -243,12 +243,12 @@ Theorem keyed_rebuild_ok : forall pre post st to,
   st_wf pre post st -> NoDup to -> keyed_ok pre post st to.
 Proof.
   intros pre post st to [Hm [Hk [Hd Hwf]]] Hto. unfold keyed_ok, rebuild.
-  pose proof (apply_diff_props pre post (ks_marker st) to (ks_m st) (ks_items st) (ks_next st) (ks_gen st)
+  pose proof (apply_diff_props pre post (ks_marker st) to (ks_bld st) (ks_items st) (ks_next st) (ks_gen st)
                 Hm Hwf Hto) as P.
   unfold start in P. rewrite <- Hd, Hk in P.
-  set (w := apply_diff (ks_m st) (ks_marker st) (diff (ks_keys st) to) to _) in *.
+  set (w := apply_diff (ks_bld st) (ks_marker st) (diff (ks_keys st) to) to _) in *.
   destruct P as [P1 [P2 [P3 [P4 [P5 [P6 [P7 [P8 [P9 [P10 [P11 [P12 P13]]]]]]]]]]]].
-  cbn [ks_dom ks_items ks_keys ks_marker ks_m ks_next ks_gen].
+  cbn [ks_dom ks_items ks_keys ks_marker ks_bld ks_next ks_gen].
   assert (forall n, In n (ks_dom st) -> (n < ks_next st)%N) as Hfresh.
   { intros n Hn. rewrite Hd in Hn. exact (wf_fresh _ _ _ _ _ Hwf n Hn). }
   split; [exact P1|]. split; [exact P3|]. split; [exact P2|]. split; [exact P7|].
@@ -281,7 +281,7 @@ Proof.
     intros it Hit. destruct (P8 it Hit) as [Ho|[Hg Hf]]; auto. right. split; auto.
     intros n Hn Hc. specialize (Hf n Hn). specialize (Hfresh n Hc). lia.
   - (* the invariant *)
-    unfold st_wf. cbn [ks_dom ks_items ks_keys ks_marker ks_m ks_next ks_gen]. auto.
+    unfold st_wf. cbn [ks_dom ks_items ks_keys ks_marker ks_bld ks_next ks_gen]. auto.
 Qed.
 
 (* ------------------------------------------------------------------- histories *)
@@ -336,48 +336,57 @@ Qed.
 
 (* ------------------------------------------------------- the initial build + mount *)
 
-Fixpoint build_items (m : nat) (ks : list N) (next : N) (gen : nat) : list item :=
+Fixpoint build_items (b : builder) (ks : list N) (next : N) (gen : nat) : list item :=
   match ks with
   | [] => []
-  | k :: r => {| it_key := k; it_gen := gen;
-                 it_nodes := map (fun j => (next + N.of_nat j)%N) (seq 0 m) |}
-              :: build_items m r (next + N.of_nat m)%N (S gen)
+  | k :: r => {| it_key := k; it_gen := gen; it_nodes := fst (b k next) |}
+              :: build_items b r (snd (b k next)) (S gen)
   end.
+Fixpoint build_next (b : builder) (ks : list N) (next : N) : N :=
+  match ks with [] => next | k :: r => build_next b r (snd (b k next)) end.
 
-Lemma build_items_keys : forall m ks next gen, map it_key (build_items m ks next gen) = ks.
+Lemma build_items_keys : forall b ks next gen, map it_key (build_items b ks next gen) = ks.
 Proof. induction ks as [|k ks IH]; intros; cbn [build_items map it_key]; [|rewrite IH]; reflexivity. Qed.
 
-Lemma build_items_nodes : forall m ks next gen,
-  flat_map it_nodes (build_items m ks next gen)
-  = map (fun j => (next + N.of_nat j)%N) (seq 0 (m * length ks)).
+Lemma build_items_range : forall b ks next gen, bld_ok b ->
+  NoDup (flat_map it_nodes (build_items b ks next gen)) /\
+  (forall n, In n (flat_map it_nodes (build_items b ks next gen)) -> (next <= n < build_next b ks next)%N) /\
+  (next <= build_next b ks next)%N.
 Proof.
-  induction ks as [|k ks IH]; intros next gen.
-  - cbn [build_items flat_map length]. rewrite Nat.mul_0_r. reflexivity.
-  - cbn [build_items flat_map it_nodes length]. rewrite IH.
-    rewrite Nat.mul_succ_r, Nat.add_comm, seq_app, map_app. f_equal.
-    rewrite (map_seq_shift _ (0 + m)). apply map_ext. intros j.
-    rewrite Nat.add_0_l, Nat2N.inj_add. lia.
+  intros b ks. induction ks as [|k ks IH]; intros next gen Hb.
+  - simpl. split; [constructor|]. split; [intros n []|lia].
+  - cbn [build_items flat_map it_nodes build_next]. destruct (Hb k next) as [Hne [Hnd Hr]].
+    pose proof (bld_ok_mono b k next Hb) as Hm.
+    destruct (IH (snd (b k next)) (S gen) Hb) as [I1 [I2 I3]]. repeat split.
+    + clear -Hnd I1 I2 Hr. revert Hnd Hr. generalize (fst (b k next)) as l. induction l as [|x l IHl]; intros Hnd Hr; auto.
+      simpl. inversion Hnd; subst. constructor.
+      * intro Hc. apply in_app_or in Hc. destruct Hc as [Hc|Hc]; [contradiction|].
+        specialize (I2 x Hc). specialize (Hr x (or_introl eq_refl)). lia.
+      * apply IHl; auto. intros; apply Hr; right; auto.
+    + apply in_app_or in H. destruct H as [H|H]; [specialize (Hr n H); lia | specialize (I2 n H); lia].
+    + apply in_app_or in H. destruct H as [H|H]; [specialize (Hr n H); lia | specialize (I2 n H); lia].
+    + lia.
 Qed.
 
-Lemma build_items_nonempty : forall m ks next gen it, 1 <= m ->
-  In it (build_items m ks next gen) -> it_nodes it <> [].
+Lemma build_items_nonempty : forall b ks next gen it, bld_ok b ->
+  In it (build_items b ks next gen) -> it_nodes it <> [].
 Proof.
-  induction ks as [|k ks IH]; intros next gen it Hm Hin; [contradiction|].
+  induction ks as [|k ks IH]; intros next gen it Hb Hin; [contradiction|].
   cbn [build_items] in Hin. destruct Hin as [E|Hin].
-  - subst. cbn [it_nodes]. destruct m; [lia|]. discriminate.
+  - subst. cbn [it_nodes]. apply Hb.
   - eapply IH; eauto.
 Qed.
 
-Lemma fold_step_build : forall m ks i w,
-  let w' := fold_left (step_build m) (enumerate_from i ks) w in
-  w_children w' = w_children w ++ map Some (build_items m ks (w_next w) (w_gen w)) /\
-  w_dom w' = w_dom w /\ w_next w' = (w_next w + N.of_nat (m * length ks))%N /\
+Lemma fold_step_build : forall b ks i w,
+  let w' := fold_left (step_build b) (enumerate_from i ks) w in
+  w_children w' = w_children w ++ map Some (build_items b ks (w_next w) (w_gen w)) /\
+  w_dom w' = w_dom w /\ w_next w' = build_next b ks (w_next w) /\
   w_gen w' = w_gen w + length ks /\ w_panic w' = w_panic w.
 Proof.
   induction ks as [|k ks IH]; intros i w; cbv zeta.
-  - simpl. rewrite app_nil_r, Nat.mul_0_r, N.add_0_r, Nat.add_0_r. repeat split; auto.
-  - cbn [enumerate_from fold_left]. destruct (IH (S i) (step_build m w (i, k))) as [C [D [Nx [G P]]]].
-    rewrite C, D, Nx, G, P. cbn [step_build w_children w_dom w_next w_gen w_panic build_items map length].
+  - simpl. rewrite app_nil_r, Nat.add_0_r. repeat split; auto.
+  - cbn [enumerate_from fold_left]. destruct (IH (S i) (step_build b w (i, k))) as [C [D [Nx [G P]]]].
+    rewrite C, D, Nx, G, P. cbn [step_build w_children w_dom w_next w_gen w_panic build_items build_next map length].
     unfold build_item. rewrite <- app_assoc. cbn [app]. repeat split; auto; lia.
 Qed.
 
@@ -449,8 +458,8 @@ Qed.
 
 (** [keyed(keys).build()] mounted before the first following sibling (or appended) gives a
     well-formed state: the starting point of every history *)
-Theorem build_mount_wf : forall m (pre post : list node) next keys,
-  1 <= m -> NoDup keys -> NoDup (pre ++ post) -> (forall n, In n (pre ++ post) -> (n < next)%N) ->
+Theorem build_mount_wf : forall (m : builder) (pre post : list node) next keys,
+  bld_ok m -> NoDup keys -> NoDup (pre ++ post) -> (forall n, In n (pre ++ post) -> (n < next)%N) ->
   st_wf pre post (fst (build_mount m (pre ++ post) (hd_error post) next keys)) /\
   ks_keys (fst (build_mount m (pre ++ post) (hd_error post) next keys)) = keys.
 Proof.
@@ -461,15 +470,10 @@ Proof.
   match type of C with w_children ?x = _ => set (w1 := x) in * end.
   cbn [w_children w_dom w_next w_gen w_panic app] in C, D, Nx, G, P.
   set (items := build_items m keys next 0) in *.
-  set (K := m * length keys) in *.
+  set (nx' := build_next m keys next) in *.
   assert (somes (w_children w1) = items) as Hs by (rewrite C; apply somes_map_Some).
   rewrite Hs.
-  assert (flat_map it_nodes items = map (fun j => (next + N.of_nat j)%N) (seq 0 K)) as Hflat
-    by apply build_items_nodes.
-  assert (forall n, In n (flat_map it_nodes items) -> (next <= n < next + N.of_nat K)%N) as Hrange.
-  { intros n Hn. rewrite Hflat in Hn. apply in_map_iff in Hn. destruct Hn as [j [E Hj]].
-    apply in_seq in Hj. subst. lia. }
-  assert (NoDup (flat_map it_nodes items)) as Hfnd by (rewrite Hflat; apply fresh_nodes_NoDup).
+  destruct (build_items_range m keys next 0 Hm) as [Hfnd [Hrange Hle]]. fold items in Hfnd, Hrange. fold nx' in Hrange, Hle.
   destruct (fold_step_mount (hd_error post) items w1) as [M1 [M2 [M3 M4]]].
   set (w2 := fold_left (step_mount (hd_error post)) items w1) in *.
   rewrite D in M1. rewrite (mount_all pre post items [] (pre ++ post)) in M1; auto.
@@ -477,7 +481,7 @@ Proof.
   cbn [app] in M1.
   assert (somes (w_children w2) = items) as Hs2 by (rewrite M2; exact Hs).
   rewrite Hs2, M1, M4, G. set (mk := w_next w1).
-  assert (mk = (next + N.of_nat K)%N) as Emk by exact Nx.
+  assert (mk = nx') as Emk by exact Nx.
   (* the marker goes in last *)
   assert (insert_before mk (hd_error post) (pre ++ flat_map it_nodes items ++ post)
           = pre ++ flat_map it_nodes items ++ mk :: post) as Hmk.
@@ -492,8 +496,8 @@ Proof.
       apply in_app_or in Hc. destruct Hc as [Hc|Hc].
       + apply NoDup_remove_2 in Hnd. apply Hnd. apply in_or_app. left. auto.
       + apply Hrange in Hc. assert (p < next)%N by (apply Hfr; apply in_or_app; right; left; auto). lia. }
-  rewrite Hmk. cbn [fst ks_m ks_dom ks_marker ks_keys ks_items ks_next ks_gen].
-  split; [|reflexivity]. unfold st_wf. cbn [ks_m ks_dom ks_marker ks_keys ks_items ks_next ks_gen].
+  rewrite Hmk. cbn [fst ks_bld ks_dom ks_marker ks_keys ks_items ks_next ks_gen].
+  split; [|reflexivity]. unfold st_wf. cbn [ks_bld ks_dom ks_marker ks_keys ks_items ks_next ks_gen].
   split; [exact Hm|]. split; [apply build_items_keys|]. split; [reflexivity|].
   constructor.
   - unfold items. rewrite build_items_keys. exact Hk.
@@ -518,12 +522,12 @@ Qed.
 
 (** a keyed list of three 2-node items between two leading and one following sibling *)
 Definition ex_state : kstate :=
-  fst (build_mount 2 ([100; 101] ++ [102])%N (hd_error [102%N]) 200%N [5; 3; 8]%N).
+  fst (build_mount (fixed_bld 2) ([100; 101] ++ [102])%N (hd_error [102%N]) 200%N [5; 3; 8]%N).
 
 Example ex_state_wf : st_wf [100; 101]%N [102%N] ex_state.
 Proof.
-  apply (build_mount_wf 2 [100; 101]%N [102%N] 200%N [5; 3; 8]%N).
-  - lia.
+  apply (build_mount_wf (fixed_bld 2) [100; 101]%N [102%N] 200%N [5; 3; 8]%N).
+  - apply fixed_bld_ok. lia.
   - repeat constructor; simpl; intuition discriminate.
   - repeat constructor; simpl; intuition discriminate.
   - simpl. intros n [H|[H|[H|[]]]]; subst; reflexivity.
